@@ -426,6 +426,14 @@ class Lifter:
             ia, ib = node_it(t[2]), node_it(t[3])
             if ia is not None and ib is not None:
                 t = ('cmp', t[1], ia, ib)
+        if isinstance(t, tuple) and len(t) == 4 and t[0] == 'cmp' and t[1] in ('<', '>=') and t[3] == ('int', 0):
+            # floor<coarser>(d).count() < 0  <=>  d < 0 (rounding towards minus infinity keeps the sign test exact; truncation does not)
+            x = t[2]
+            while isinstance(x, tuple) and len(x) == 3 and x[0] == 'cast':
+                x = x[2]
+            if isinstance(x, tuple) and len(x) >= 3 and x[0] == 'mcall' and x[1] == 'count' and isinstance(x[2], tuple) \
+                    and x[2][:2] == ('fncall', 'floor') and len(x[2]) > 2 and len(x[2][2]) == 1:
+                return self.classify(('cmp', t[1], x[2][2][0], ('int', 0)))
         if isinstance(t, tuple) and len(t) == 4 and t[0] == 'cmp' and t[1] in ('<', '<=', '!=') and t[3] == ('fncall', 'max', ()) \
                 and isinstance(t[2], tuple) and t[2][:1] in (('lv',), ('var',)):
             # `count < std::numeric_limits<size_t>::max()` ("no limit"): a local tally of entries never gets there
@@ -1614,6 +1622,22 @@ def emptiness(c):
 
 def feasible(seg):
     """prune paths contradicting RI + capacity >= 1 (closed list of facts, DESIGN.md 3.2); -> (ok, reason)"""
+    # the same (pure, versioned) condition term evaluated twice on one path cannot come out both ways
+    seen = {}
+    for c in seg.conds:
+        raw = c[4]
+        rt = c[5] if len(c) > 5 and c[5] is not None else c[2]
+        if isinstance(raw, tuple) and len(raw) == 4 and raw[0] == 'cmp' and raw[2] == raw[3] and isinstance(raw[2], tuple) and rt is not None:
+            # x == x / x != x / x < x on one and the same term
+            if (raw[1] in ('==', '<=', '>=')) != bool(rt):
+                return False, 'a term compared with itself'
+        if isinstance(raw, tuple) and raw:
+            try:
+                if raw in seen and seen[raw] != rt:
+                    return False, 'the same condition is taken both ways'
+                seen[raw] = rt
+            except TypeError:
+                pass
     full = seg.cond('FULL')
     nonempty = seg.cond('NONEMPTY')
     if full is True and nonempty is False:
